@@ -41,8 +41,15 @@ impl Clone for Box<dyn Clock> {
 }
 
 impl Clock for SystemClock {
+    #[cfg(not(cached_verif))]
     fn now(&self) -> SystemTime {
         SystemTime::now()
+    }
+
+    /// Simulation harness only: the wall clock is a seam too (see `verif::install_wall_clock`).
+    #[cfg(cached_verif)]
+    fn now(&self) -> SystemTime {
+        crate::cache::verif::wall_clock_now()
     }
 }
 
